@@ -90,8 +90,12 @@ class BaseElementLocator
 
     void resize(std::size_t new_size, std::byte* memory_begin) noexcept
     {
-        last_element_ = element_address(new_size, memory_begin);
-        element_addresses_.resize_from_capacity(new_size);
+        // the slot at size() has never been written (and does not exist when size() == capacity)
+        if (new_size < element_addresses_.size())
+        {
+            last_element_ = element_address(new_size, memory_begin);
+            element_addresses_.resize_from_capacity(new_size);
+        }
     }
 
     void move_elements_forward(std::size_t from, std::size_t to, std::byte* memory_begin) noexcept
